@@ -105,6 +105,34 @@ def build(spec):
     raise ValueError(spec)
 
 
+def build_for(spec, case, ctx):
+    """The type object a case uses.  Parametrised types are objects, and an
+    object reaches the codec in whatever way the user's program moved it
+    there: built in place, or as a copy of a definition (copy.copy /
+    copy.deepcopy of a field list, a layout received from another process
+    through pickle).  A copy of FixedPoint(Integer, 5) is the same wire
+    type.  Where the interpreter cannot copy the object at all the case
+    falls back to the built one (counted, never a violation)."""
+    T = build(spec)
+    if isinstance(spec, str):
+        return T
+    key = case.get('value', case.get('data'))
+    how = len(repr(key)) % 4
+    if how == 0:
+        return T
+    import copy
+    import pickle
+    try:
+        C = (None, copy.copy, copy.deepcopy,
+             lambda t: pickle.loads(pickle.dumps(t)))[how](T)
+    except Exception:
+        ctx.label('type_object_not_copyable')
+        return T
+    ctx.label('type_object_%s' % ('', 'copied', 'deep_copied',
+                                   'pickled')[how])
+    return C
+
+
 # ------------------------------------------------------ reference encoding
 
 def ref_enc(spec, v):
@@ -378,7 +406,7 @@ def value_case(ctx, case):
     mode = case.get('mode', 'plain')
     if isinstance(spec, list):
         spec = _tup(spec)
-    T = build(spec)
+    T = build_for(spec, case, ctx)
     ctx.ev()
     allowed = allowed_encodings(spec, v)
     name = spec_name(spec)
@@ -519,7 +547,7 @@ def decode_case(ctx, case):
     spec, data = case['spec'], case['data']
     if isinstance(spec, list):
         spec = _tup(spec)
-    T = build(spec)
+    T = build_for(spec, case, ctx)
     ctx.ev()
     want, wpos = ref_dec(spec, data, 0)
     s = CountingStream(data)
